@@ -38,11 +38,16 @@ class Walker:
         x = self.points[point - 1]
         if op == "eval":
             FAULT.k = 0
-            pen = self.opt.objective_function(x.copy())
+            try:
+                pen = self.opt.objective_function(x.copy())
+            except Exception as e:  # noqa: BLE001  - judged by the caller: an evaluation without injected fault must not raise
+                return {"op": op, "point": point, "pen": "", "finite": False, "size": 0, "err": f"raised:{type(e).__name__}: {str(e)[:120]}",
+                        "lens": lens_of(self.opt)}
             arr = np.asarray(pen)
             return {"op": op, "point": point, "pen": digest(arr), "finite": bool(np.all(np.isfinite(arr))), "size": int(arr.size), "err": "",
                     "lens": lens_of(self.opt)}
         FAULT.k, FAULT.kind, FAULT.persistent = FAULT.calls + 1, self.failkind, False
+        calls_before = FAULT.calls
         try:
             pen = self.opt.objective_function(x.copy())
         except Exception as e:  # noqa: BLE001
@@ -53,8 +58,10 @@ class Walker:
             return {"op": op, "point": point, "pen": "", "finite": False, "size": 0, "err": type(e).__name__, "lens": ln}
         FAULT.k = 0
         arr = np.asarray(pen)
-        return {"op": op, "point": point, "pen": digest(arr), "finite": bool(np.all(np.isfinite(arr))), "size": int(arr.size), "err": "no-exception",
-                "lens": lens_of(self.opt)}
+        # "cached": the model was not called at all (an implementation may answer a repeated point from a cache; then nothing can raise and
+        # the answer is judged like an ordinary evaluation); "no-exception": the model was called, raised, and a penalty came back all the same
+        return {"op": op, "point": point, "pen": digest(arr), "finite": bool(np.all(np.isfinite(arr))), "size": int(arr.size),
+                "err": "cached" if FAULT.calls == calls_before else "no-exception", "lens": lens_of(self.opt)}
 
 
 def run_walk(name: str, walk: list, failkind="exception", emit=None, run=0, built=None) -> dict:
